@@ -45,8 +45,17 @@ class WildcardBinFactory(object):
         return (value,mask)
     
     @classmethod
-    def valmask2binlist(cls, value, mask):
-        """Converts value/mask representation to a list of bin specifications"""
+    def str2width(cls, val) -> int:
+        """Number of bits a pattern string spells out (wildcard digits included)"""
+        digit_bits = {"0o": 3, "0x": 4, "0b": 1}.get(val[:2].lower())
+        if digit_bits is None:
+            raise Exception("unknown base for value %s" % str(val))
+        return digit_bits * len([c for c in val[2:] if c != '_'])
+
+    @classmethod
+    def valmask2binlist(cls, value, mask, width=0):
+        """Converts value/mask representation to a list of bin specifications.
+        Wildcard bits above the highest mask bit count up to 'width' bits"""
         
         n_bits = 0
         
@@ -55,12 +64,12 @@ class WildcardBinFactory(object):
 
         total_mask_bits = 0
         directives = []
-        while mask_t != 0:
+        while mask_t != 0 or bit_i < width:
             if (mask_t & 1) == 0:
                 # Collect this grouping
                 group_start_bit = bit_i
                 group_n_bits = 0
-                while (mask_t & 1) == 0:
+                while (mask_t & 1) == 0 and (mask_t != 0 or bit_i < width):
                     group_n_bits += 1
                     total_mask_bits += 1
                     mask_t >>= 1
